@@ -243,6 +243,13 @@ func (r *Report) finish(evdir string, writeEvidence bool) int {
 		}
 		sweep["failures"] = len(hits)
 		for _, h := range hits {
+			if f := strings.Fields(h.Line); len(f) >= 2 && f[0] == "RAC-FAIL" {
+				if k := isKnown(f[1]); k != nil {
+					// the run-time face of a listed finding
+					fmt.Printf("KNOWN-FINDING: property=%s %s [%s, run-time check on input %q]\n", r.Prop, k.What, f[1], h.Input)
+					continue
+				}
+			}
 			violations++
 			os.MkdirAll(replayDir, 0o755)
 			fn := strings.NewReplacer("/", "_", " ", "_", "#", "-", ":", "-", "*", "", "(", "", ")", "").Replace("sweep-" + h.Line)
